@@ -168,7 +168,7 @@ def run(ctx):
         finals = []
         for i in (j, j + 1, j + 2):
             last = res[i][0]["iters"][-1]
-            finals.append(json.dumps(cliprops.common.enc([last["localdata"], last["remotedata"]]), sort_keys=True))
+            finals.append(cliprops.common.canon([last["localdata"], last["remotedata"]]))
         drained = all(not res[i][0]["iters"][-1]["queue"] for i in (j, j + 1, j + 2))
         if drained and len(set(finals)) > 1 and not c07.lifecycle_has_readd(cases[j], res[j][0]):
             violations.append({"sig": None, "replay_kind": "client_case", "case": cliprops.common.enc(cases[j]),
